@@ -23,7 +23,7 @@ CFG = dict(
     uses_gen=False,
     rule='each event (simulated-like multi-track events with noise built from the wire/pad response shapes and the drift table, consistent random events, every class of single inconsistency, events on arbitrary runs) is evaluated (a) through implementation AND model as generated, reversed, randomly permuted and - lists of up to 6 banks - under every adjacent transposition (`evt10` cases, slots and timestamp compared); (b) by the implementation-only relation `rel11`: repeat, every adjacent transposition, the reversal and N random permutations (quick 6, thorough 50) must succeed/fail alike and on success give identical timestamp, signal arrays, avalanches() and vertex() bit for bit; the same in a spawned thread (all cases) and in a fresh child process re-invoking the harness binary (thorough: all cases; quick: one), i.e. under different HashMap seeds. non-trivial = more than one bank or not rejected',
     trusted=_TRUSTED,
-    level_text='Coq theorems over the assembly model: for every permutation of the bank list and every pair of iteration orders of the chunk-group map the build succeeds or fails alike and on success yields the same event (timestamp and every wire/pad slot); separately, the iteration order alone is irrelevant with no assumption on reassembly. Hypotheses: typed values, one-to-one wire map (C08), order-insensitive reassembly (C04). For all bank lists; no bound.',
+    level_text='Coq theorems over the assembly model: for every permutation of the bank list and every pair of iteration orders of the chunk-group map the build succeeds or fails alike and on success yields the same event (timestamp and every wire/pad slot); separately, the iteration order alone is irrelevant with no assumption on reassembly. Hypotheses: typed values, one-to-one wire map (C08), order-insensitive reassembly (C04) - all three DISCHARGED for the end-to-end model over raw banks (C11_e2e_wire_pos_injective, C11_e2e_reasm_perm, C11_e2e_build_perm_invariant: for every permutation of the raw (name, data) list). For all bank lists; no bound.',
     level_note="NOT A PROOF for the second sentence of the property: 'same result in another thread / another process' is runtime behaviour (hash seeds, CPU feature detection) that no Gallina model exhibits; it is exercised by the `rel11` cases (main thread, spawned thread, fresh child process, compared bit for bit incl. avalanches() and vertex()) and is a test. avalanches()/vertex() determinism as functions of the signal arrays is likewise exercised, their models belong to C13/C14/C17. Proved part trusted as for C10.",
     note='a `rel11 fails` line is a bank list on which two orders (or two threads/processes) give different results on the real code; an `evt10` difference is a departure of the real assembly from the model proved order-independent',
 )
